@@ -347,10 +347,14 @@ def _run(a, mod, modname, pid, seed, t0):
     known = load_known()
     new = []
     n_viol = 0
+    def base_key(key):
+        # the second pass (child interpreter with -O) re-runs the same inputs: the same failing input there is the same finding
+        return key[len("python-O/"):] if key.startswith("python-O/") else key
+
     for key, (count, what, cases) in sorted(total.viol.items()):
         n_viol += count
-        if (pid, key) in known:
-            print("KNOWN-FINDING: property=%s %s [%s] (%d case(s) this run)" % (pid, known[(pid, key)]["what"], key, count))
+        if (pid, base_key(key)) in known:
+            print("KNOWN-FINDING: property=%s %s [%s] (%d case(s) this run)" % (pid, known[(pid, base_key(key))]["what"], key, count))
         else:
             new.append((key, count, what, cases))
     os.makedirs(os.path.join(ROOT, "replays"), exist_ok=True)
@@ -389,7 +393,7 @@ def _run(a, mod, modname, pid, seed, t0):
         "assumptions": list(mod.ASSUMPTIONS),
         "wall_s": round(wall, 2),
         "violations": len(new),
-        "known_findings_seen": sorted(k for k in total.viol if (pid, k) in known),
+        "known_findings_seen": sorted(k for k in total.viol if (pid, base_key(k)) in known),
         "technique": getattr(mod, "TECHNIQUE", ""),
         "repo": os.environ.get("VF_REPO"),
     }
